@@ -1070,6 +1070,63 @@ impl CWorld {
     }
 }
 
+// guided random scripts: write / call / read patterns over all call kinds, nesting up to 4 frames,
+// re-entrancy (any existing contract may be the target, including the running one and dead ones),
+// reverts / aborts / early returns at random positions, value transfers, CREATE/CREATE2, SELFDESTRUCT
+fn random_script(rng: &mut crate::util::Rng, depth: u32, cons: &[Value], recv: &[Value]) -> Value {
+    let n = rng.range(1, if depth == 0 { 6 } else { 4 });
+    let mut ops = vec![];
+    for _ in 0..n {
+        let k = rng.below(KEYS as u64);
+        let o = match rng.below(100) {
+            0..=19 => json!({"op": "sstore", "k": k, "v": rng.below(4)}),
+            20..=34 => json!({"op": "sload", "k": k}),
+            35..=42 => json!({"op": "tstore", "k": k, "v": rng.below(4)}),
+            43..=50 => json!({"op": "tload", "k": k}),
+            51..=54 => json!({"op": "log", "t": rng.range(1, 3)}),
+            55..=58 => json!({"op": "env"}),
+            59..=60 => json!({"op": "bal", "a": if rng.chance(60) { rng.pick(cons).clone() } else { rng.pick(recv).clone() }}),
+            61..=85 if depth < 3 => {
+                let kind = *rng.pick(&["call", "call", "call", "static", "delegate", "delegate"]);
+                let value = if kind == "call" && rng.chance(30) { 1 } else { 0 };
+                let mut sub = random_script(rng, depth + 1, cons, recv);
+                if rng.chance(25) {
+                    // the classic shape: the callee reads what the caller wrote, writes, and the caller reads it back
+                    let mut v = vec![json!({"op": "sload", "k": k}), json!({"op": "sstore", "k": k, "v": rng.range(1, 3)})];
+                    v.extend(sub.as_array().unwrap().iter().cloned());
+                    sub = json!(v);
+                }
+                ops.push(json!({"op": "call", "kind": kind, "to": rng.pick(cons).clone(), "value": value, "prog": sub}));
+                json!({"op": if rng.chance(70) { "sload" } else { "tload" }, "k": k})
+            }
+            86..=88 => json!({"op": "create2", "salt": format!("s{}", rng.range(1, 2)), "value": rng.below(2)}),
+            89..=90 => json!({"op": "create", "value": 0}),
+            91..=93 => {
+                let ben = match rng.below(10) {
+                    0..=3 => json!(["caller"]),
+                    4..=7 => rng.pick(recv).clone(),
+                    _ => rng.pick(cons).clone(),
+                };
+                json!({"op": "destroy", "ben": ben})
+            }
+            94..=96 => json!({"op": "revert"}),
+            97 => json!({"op": "invalid"}),
+            98 => json!({"op": "return"}),
+            _ => json!({"op": "sload", "k": k}),
+        };
+        ops.push(o);
+    }
+    json!(ops)
+}
+
+fn random_msg(rng: &mut crate::util::Rng, st: &Value) -> Value {
+    let cons: Vec<Value> = st["con"].as_array().unwrap().iter().map(|c| c[0].clone()).collect();
+    let recv = vec![json!(["x1"]), json!(["x2"])];
+    let to = rng.pick(&cons).clone();
+    json!({"a": "Msg", "to": to, "value": if rng.chance(25) { 1 } else { 0 },
+           "prog": random_script(rng, 0, &cons, &recv)})
+}
+
 pub fn main(args: &[String]) {
     let r = std::panic::catch_unwind(std::panic::AssertUnwindSafe(|| main_inner(args)));
     if let Err(p) = r {
@@ -1104,6 +1161,25 @@ fn main_inner(args: &[String]) {
             if let Some(s) = sched_out.as_mut() {
                 s.line(&json!(beh));
             }
+        }
+    }
+    let n = arg_u64(args, "--random", 0);
+    let len = arg_u64(args, "--len", 10);
+    let mut rng = Rng::new(seed);
+    for i in 0..n {
+        let w = CWorld::new(seed.wrapping_mul(1000) + i);
+        begin(&mut t, &w);
+        let mut st = w.project(vec![]);
+        let mut msgs = vec![];
+        for _ in 0..len {
+            let m = random_msg(&mut rng, &st);
+            let ev = w.step(&m);
+            st = ev["st"].clone();
+            t.line(&ev);
+            msgs.push(m);
+        }
+        if let Some(s) = sched_out.as_mut() {
+            s.line(&json!(msgs));
         }
     }
     t.flush();
